@@ -309,7 +309,7 @@ impl Property for C15 {
         ]
     }
     fn cases(&self, tier: Tier) -> usize {
-        tier.pick(15000, 150_000)
+        tier.pick(60000, 1_500_000)
     }
     fn strategy(&self, tier: Tier) -> BoxedStrategy<Case> {
         let (maxdim, maxrows) = tier.pick((4usize, 10usize), (5, 14));
